@@ -187,10 +187,24 @@ def run_check(pid, tier, seed, jobs, only=None, verbose=False, record_baseline=F
     replayed = 0
     vio_records = []
     seen_v = set()
+    by_name = {}
+    for r in violations:
+        by_name.setdefault(r['name'], []).append(r)
     for r in violations:
         if r['name'] in seen_v:
             continue
         seen_v.add(r['name'])
+        # several paths may fail the same obligation: replay their counter-models in turn until one
+        # reproduces on the real code
+        if not (r.get('native') or searched.get(r['name'])):
+            for cand in by_name[r['name']][:6]:
+                rp_ = replay_mod.try_replay(pid, cand, {})
+                if rp_.get('reproduced'):
+                    cand['native'] = rp_
+                    r = cand
+                    break
+            else:
+                r['native'] = rp_
         path = os.path.join(OUT_DIR, 'replay', f'{pid}-{safe(r["name"])}.json')
         rec = {'property': pid, 'obligation': r['name'], 'unit': r['unit'], 'where': r['where'],
                'path': r.get('path'), 'backend': r['backend'], 'solver_output': r['detail'],
